@@ -70,6 +70,10 @@ func (fp *filterPersist) _switch(
 	accepted := TxRequest{Sender: b.Sender, doneF: b.doneF, Context: b.Context, span: b.span}
 	rejected := TxRequest{Sender: b.Sender, Context: b.Context, span: b.span}
 
+	// Start-up recovery applies operations by the same rule while this segment is already
+	// running; the lock keeps its transaction and this one from both deciding against the
+	// same committed state.
+	unlock := fp.lockApply()
 	err := xkv.WithTx(ctx, fp.db, func(txn xkv.Tx) error {
 		for _, op := range b.Operations {
 			sup, supErr := supersedes(ctx, txn, op)
@@ -94,6 +98,7 @@ func (fp *filterPersist) _switch(
 		}
 		return nil
 	})
+	unlock()
 	accepted.done(err)
 
 	if err == nil && !accepted.empty() {
